@@ -18,6 +18,8 @@ pub enum IfMissing {
     #[allow(dead_code)]
     Error,
     Ignore,
+    /// like `Ignore`, but also keeps escapes (`\${`) as they are, for a later pass
+    Defer,
     Empty,
 }
 
@@ -142,7 +144,7 @@ where
             Some(val) => result.push_str(expand_recursive(val, r, seen, if_missing)?.as_ref()),
             None => match if_missing {
                 IfMissing::Error => return Err(ExpandError::Missing(key.into())),
-                IfMissing::Ignore => {
+                IfMissing::Ignore | IfMissing::Defer => {
                     result.push_str("${");
                     result.push_str(key_);
                     result.push('}')
@@ -158,7 +160,7 @@ where
         result.push_str(&f[cursor..]);
     }
 
-    if escapes {
+    if escapes && !matches!(if_missing, IfMissing::Defer) {
         result = result.replace("\\${", "${");
     }
 
